@@ -62,7 +62,8 @@ var (
 	evictionInterval    = time.Minute     // Time interval to check for evictable transactions
 	statsReportInterval = 8 * time.Second // Time interval to report transaction pool stats
 
-	Blacklisted = make(map[string]bool) // contains the blacklisted senders
+	Blacklisted   = make(map[string]bool) // contains the blacklisted senders
+	blacklistedMu sync.RWMutex            // guards Blacklisted (written by UpdateBlacklist while pools validate transactions)
 )
 
 // TxStatus is the current status of a transaction as seen by the pool.
@@ -867,7 +868,7 @@ func (pool *TxPool) addTxs(txs []*types.Transaction, local, sync bool) []error {
 			continue
 		}
 		// Prevent tx from blacklisted senders getting into the local pool
-		if Blacklisted[sender.Hex()] {
+		if isBlacklisted(sender.Hex()) {
 			errs[i] = ErrBlacklistedSender
 			continue
 		}
